@@ -249,10 +249,12 @@ func runTCPClient(phases []phase) error {
 	n := &gomavlib.Node{Endpoints: []gomavlib.EndpointConf{gomavlib.EndpointTCPClient{Address: sim.Addr(port)}},
 		Dialect: ardupilotmega.Dialect, OutVersion: gomavlib.V2, OutSystemID: 9, HeartbeatDisable: true,
 		IdleTimeout: c14Idle, ReadTimeout: 500 * time.Millisecond}
-	if len(phases)%2 == 1 {
-		// a connect timeout shorter than the longer outages: every attempt has its own time budget, however
-		// long the run of failed attempts has lasted
-		n.ReadTimeout = 120 * time.Millisecond
+	for _, ph := range phases {
+		if ph.kind == "down" && ph.down >= 150*time.Millisecond {
+			// a connect timeout shorter than the long outage: every attempt has its own time budget, however
+			// long the run of failed attempts has lasted
+			n.ReadTimeout = 120 * time.Millisecond
+		}
 	}
 	if err := initNode(&n); err != nil {
 		return fmt.Errorf("BROKEN: %v", err)
@@ -737,6 +739,14 @@ func TestC14Clients(t *testing.T) {
 			{kind: "serial", phases: drawAllPhases(t, []string{"readerr", "readerr-stalled", "writefail-then-readerr", "longlived-readerr", "blockedwrite-readerr"})},
 			{kind: "udp-client", phases: drawAllPhases(t, []string{"answer-then-silent", "answer-then-vanish"})},
 		}
+		// the first TCP scenario always contains an outage longer than its connect timeout, somewhere after its
+		// first connection (runTCPClient shortens the connect timeout when it sees such a phase)
+		{
+			ph := subs[0].phases
+			at := rapid.IntRange(1, len(ph)).Draw(t, "long_outage_at")
+			long := phase{kind: "down", down: time.Duration(rapid.IntRange(150, 260).Draw(t, "long_outage_ms")) * time.Millisecond}
+			subs[0].phases = append(append(append([]phase{}, ph[:at]...), long), ph[at:]...)
+		}
 		if rapid.Bool().Draw(t, "extra_tcp") {
 			subs = append(subs, &sub{kind: "tcp-client", phases: drawPhases(t, []string{"down", "eof", "eof", "reset", "idle", "eof-longlived"})})
 		}
@@ -781,7 +791,7 @@ func TestC14Clients(t *testing.T) {
 				if p.kind == "answer-then-vanish" {
 					cls = append(cls, "udp-peer-vanishes")
 				}
-				if s.kind == "tcp-client" && len(s.phases)%2 == 1 && p.kind == "down" && p.down > 130*time.Millisecond {
+				if s.kind == "tcp-client" && p.kind == "down" && p.down >= 150*time.Millisecond {
 					cls = append(cls, "outage-longer-than-connect-timeout")
 				}
 				if p.kind == "readerr-stalled" {
